@@ -88,21 +88,23 @@ def determinism(res, tier):
     # a double null: its closed-field-line y-group consists of two regions, so the order in which groups and regions are visited matters
     dn = gridlab.tokamak_spec("cdn", fpol="const")
     specs = [base, dict(base, history=[base]), dict(base, history=[other]), dict(base, history=[circ, other]),
-             dn, dict(dn, history=[dn]), dict(dn, history=[dn, dn]), dict(dn, history=[base, circ])]
-    groups = [(0, [1, 2, 3]), (4, [5, 6, 7])]
+             dn, dict(dn, history=[dn]), dict(dn, history=[dn, dn]), dict(dn, history=[base, circ]),
+             # another grid (without a pressure profile, other topology) generated between this grid's geometry() and its writeGridfile()
+             dict(base, interleave=[circ]), dict(base, interleave=[other])]
+    groups = [(0, [1, 2, 3, 8, 9]), (4, [5, 6, 7])]
     if tier == "thorough":
         b2 = gridlab.tokamak_spec("cdn", fpol="linear", options={"orthogonal": False})
         specs += [b2, dict(b2, history=[b2]), dict(b2, history=[base])]
-        groups.append((8, [9, 10]))
+        groups.append((10, [11, 12]))
         b3 = gridlab.tokamak_spec("ldn", fpol="linear")
         specs += [b3, dict(b3, history=[b3, b3]), dict(b3, history=[dn])]
-        groups.append((11, [12, 13]))
+        groups.append((13, [14, 15]))
     out = gridlab.get(specs, cache=True)
     for ref, others in groups:
         a = out[ref]
         for k in others:
             b = out[k]
-            hist = [h.get("geometry", "circular") for h in specs[k]["history"]]
+            hist = [h.get("geometry", "circular") for h in specs[k].get("history", [])] + ["(interleaved) " + h.get("geometry", "circular") for h in specs[k].get("interleave", [])]
             res.case(key=("history", ref, tuple(hist)), nontrivial=True, sample={"op": "rebuild after history", "history": hist})
             if a["error"] or b["error"]:
                 if bool(a["error"]) != bool(b["error"]):
